@@ -7,6 +7,7 @@ LIBS = {
 
 PROPS = {
     "C01": {
+        "lean_modules": ["Props.Clean", "Props.Cells"],
         "groups": [{"name": "render", "quick": 2500, "thorough": 60000}, {"name": "C01misc", "quick": 2000, "thorough": 60000},
                    {"name": "C14", "quick": 1500, "thorough": 40000}],
         "rule": "documents from grammars of HTML (inline styles, links, media, blockquotes, lists, headings, pre, hr, unknown tags, character-reference and raw control-character injections), Markdown, gemtext and plain text with URLs x sequences of 1..4 widths (-3..250); "
@@ -24,6 +25,7 @@ PROPS = {
         "assumptions": ["adjacent numbers without any text between them (two empty anchors in a row) are visually ambiguous; the property is stated on the numbers as emitted (ghost labels), see DESIGN.md"],
     },
     "C14": {
+        "lean_modules": ["Props.Cells", "Props.Clean"],
         "groups": [{"name": "C14", "quick": 4000, "thorough": 100000}, {"name": "render", "quick": 1500, "thorough": 40000}],
         "rule": "style expressions (nesting and concatenation of the eight style functions over texts with newlines, blanks, tabs, wide characters) optionally followed by 0..3 layout steps (wrap, dumbwrap, pad, indent, snip, quote, header, bullet, link, linkblock); a terminal state machine is run on the implementation's output: per-character attributes must equal the enclosing style functions, and no attribute may be active at a line break or at the end; plus the render group; "
                 "non-trivial = some character is styled; distinct by op content",
@@ -58,6 +60,18 @@ PROPS = {
                     "webfinger handles, local files and configured feeds are outside the generated worlds (modelled as error items / 'not a known feed')"],
         "assumptions": ["Config.Safe (C19); no media links in the generated worlds (o/p/b are no-ops there; argv construction is C20)"],
         "shrink_budget": 2,
+    },
+    "C08": {
+        "groups": [{"name": "C08", "quick": 64, "thorough": 3000, "workers": 16, "config": "[feeds]\nhome = [\"https://127.0.0.1:1/a\", \"https://127.0.0.1:1/b\"]\n"}],
+        "race": True,
+        "level": "proof",
+        "rule": "the UI worlds of C07 driven the way main.go drives the UI: one goroutine per key byte (30..90 navigation, selection and :open tokens), a poller resizing every 0.3 ms, simulator latencies of 0..8 ms, all under the Go race detector; observed: data-race reports, overlapping frame emissions, frames whose height differs from the state's height at drawing time, key handlers that never return (20 s watchdog); "
+                "non-trivial = at least one frame was emitted; distinct by op content",
+        "trusted": ["extract/ (go/ast): reports the lock/access skeleton of ui/ui.go and the goroutine fan-outs faithfully; paths through a method are sub-sequences of its flattened skeleton with the same lock state because lock operations occur only at nesting depth 0 (checked)",
+                    "the Go memory model, sync.Mutex, sync.WaitGroup; golang-lru and singleflight are internally synchronised",
+                    "the race detector and the stress only validate the extraction; they are not the proof"],
+        "assumptions": ["commands succeed (Subcommand deliberately keeps the mutex on error so that main can clean up)"],
+        "shrink_budget": 0,
     },
     "C09": {
         "groups": [{"name": "C02", "quick": 1200, "thorough": 40000, "workers": 12}],
@@ -165,7 +179,8 @@ PROPS = {
         "assumptions": ["width >= 1 for the width clause"],
     },
     "C16": {
-        "groups": [{"name": "C16", "quick": 6000, "thorough": 200000}],
+        "lean_modules": ["Props.C16b"],
+        "groups": [{"name": "C16", "quick": 6000, "thorough": 200000}, {"name": "C07", "quick": 160, "thorough": 4000, "workers": 16}],
         "rule": "prefix/centered/suffix of 0..8 styled lines each x heights 1..16; non-trivial = height exceeds the centred text (buffers are computed); distinct by op content",
         "trusted": [LIBS["regexp"]],
         "assumptions": ["frames are produced only by ui.State.view (generated fact)", "terminal height >= 2 for the status line clause"],
@@ -211,6 +226,12 @@ MANIFEST_TEXT = {
         "design_ref": "DESIGN.md §5 C07",
         "note": "Trusted: Lean kernel; correspondence check (testing); quiescence detection; oracle tables; TLS.",
         "technique": "Lean 4 proof (invariant by induction over the key sequence; keymap corollaries) + differential correspondence of the real UI against the model after every key",
+    },
+    "C08": {
+        "text": "Lean theorems about a model of one mutex plus ownership tokens, for every program, every number of threads and every interleaving: the static discipline (accesses under the mutex or the variable's token, tokens handled under the mutex, no nested lock) excludes data races, makes frame emission exclusive, excludes deadlock and makes every execution finite. The lock/access skeleton of ui/ui.go and the goroutine fan-outs of pub/splicer are regenerated from the source by a go/ast extractor on every run and shown (by evaluation in Lean) to satisfy the discipline: every entry point, private methods lock-free, the loading-flag ownership protocol, pairwise-disjoint fan-out writes. The extraction is validated by a -race stress of the real UI with an overlap detector and a watchdog. Partial: extraction and the Go memory model are trusted.",
+        "design_ref": "DESIGN.md §5 C08",
+        "note": "Trusted: Lean kernel; extract/ (go/ast); Go memory model, sync primitives; race-detector stress is validation only.",
+        "technique": "Lean 4 proof (interleaving model, invariant over all reachable states) over facts regenerated from the source by a translator + race-detector stress as validation",
     },
     "C09": {
         "text": "Lean theorems: an outbox element is delivered as an activity iff construction succeeded, the owner has an id and the activity's resolved actor id equals it; a reply element is delivered as a post iff its resolved inReplyTo id equals the post's id; a post is built only if every resolved author shares its host; listings keep one entry per element in order, failures in place. Tied to pub by differential correspondence on listings over multi-host worlds with impostors; genuineness predicates are evaluated on every implementation output.",
